@@ -42,7 +42,7 @@
 //          RUN id=<n> m=<method> fam=<M|E|U|O|X|Y> back=<eigen|hand|pre|tab|pretab> src=<eigen|hand> order=<str> entry=<range|using>
 //              d=<int> k=<int> seed=<int> nm=<brute|vptree|covertree> em=<dense|randomized> wd=<s> [off=<shift of
 //              the index sequence, fam U/Y only>] [perm=<seed: the integers of the index sequence are permuted, fam U/Y only>]
-//              [min=1: only method and target dimension are set, all other keywords left to the library defaults] [..]
+//              [min=1: only method, target dimension, max_iteration and squishing_rate are set, all other keywords left to the library defaults] [..]
 // Output:  C <id>                          marker before the call
 //          R <id> OK <rows> <cols> <hex...> | <12 counters role-major K,D,F x kernel,distance,vector,dimension> <obj_as_index>
 //                 <index_as_obj> <foreign: a callback received something that is not an element of [begin,end)>
@@ -798,7 +798,9 @@ int main()
         // (the call forms must agree there too: same defaults, same refusals)
         const bool minimal = kv.count("min") && kv["min"] == "1";
         if (minimal)
-            kv.erase("lr"), kv.erase("perp"), kv.erase("theta"), kv.erase("sq"), kv.erase("maxit"), kv.erase("width"),
+            // (max_iteration and squishing_rate stay explicit: with the defaults 100 / 0.99 ManifoldSculpting needs minutes
+            // for two dozen points, its step length shrinks by 0.9 per iteration)
+            kv.erase("lr"), kv.erase("perp"), kv.erase("theta"), kv.erase("width"),
                 kv.erase("ts"), kv.erase("speg"), kv.erase("spen"), kv.erase("spetol"), kv.erase("fae"), kv.erase("cc"),
                 kv["nm"] = "", kv["em"] = "";
         else
